@@ -37,6 +37,7 @@ LEVEL = ("sibling / guard rules: (1) every get_type_string implementation evalua
          "UNSET, never as a fresh value.")
 
 TEMPLATE_DIR = "property_templates/"
+GUARD_RE = re.compile(r"isinstance\([^)]*,\s*Unset\)|\bis (not )?UNSET\b")   # generated code that asks whether a value is the sentinel
 
 
 def run(rep: Report, ctx: Any) -> str:
@@ -120,6 +121,7 @@ def run(rep: Report, ctx: Any) -> str:
             texts_req: list[str] = []
             texts_opt: list[str] = []
             unguarded_unset = []
+            guard_frs: list[tuple[int, tplq.Frag, list[str]]] = []   # the pieces that mention the sentinel or its class for optional properties
             for i_fr, fr in enumerate(frs):
                 # what the fragment contributes to the generated code: template text as it stands; of an output expression the
                 # string constants it evaluates (a conditional expression selects one arm, a `set` variable reads as its
@@ -137,6 +139,8 @@ def run(rep: Report, ctx: Any) -> str:
                     txt = fr.text if fr.kind == "data" else "".join(tev2.consts(fr.expr, env, i_fr))
                     on_req = env[req_atom] if req_atom in names else True
                     on_opt = not env[req_atom] if req_atom in names else True
+                    if on_opt and re.search(r"\bUNSET\b|\bUnset\b", txt) and not any(x[1] is fr for x in guard_frs):
+                        guard_frs.append((i_fr, fr, names))
                     if on_req and txt not in texts_req[-1:]:
                         texts_req.append(txt)
                         if re.search(r"\bUNSET\b|\bUnset\b", txt):
@@ -148,7 +152,7 @@ def run(rep: Report, ctx: Any) -> str:
                       where=f"{PKG}/templates/{tn}:{m.lineno}", lhs=unguarded_unset[:2], rhs="no Unset handling when required")
             opt = "".join(texts_opt)
             # (an identity test with the singleton asks the same as the instance test of its class)
-            has_guard = bool(re.search(r"isinstance\([^)]*,\s*Unset\)|\bis (not )?UNSET\b", opt)) or "isinstance(" in opt and "Unset" in opt
+            has_guard = bool(GUARD_RE.search(opt)) or "isinstance(" in opt and "Unset" in opt
             if mn == "guarded_statement":
                 rep.check(has_guard, "R10.2", key + "::optional-arm", "optional arm has no isinstance(..., Unset) guard",
                           where=f"{PKG}/templates/{tn}:{m.lineno}", lhs=opt.strip()[:80], rhs="isinstance(source, Unset)")
@@ -158,21 +162,27 @@ def run(rep: Report, ctx: Any) -> str:
                           "the arm emitted for optional properties does not test isinstance(..., Unset) (a truthiness or equality "
                           "test would confuse falsy values with absence)", where=f"{PKG}/templates/{tn}:{m.lineno}",
                           lhs=opt.strip()[:100], rhs="isinstance(<source>, Unset) guard")
-            # a guard is skipped only under property.required: every If that decides between the two arms tests exactly that atom
-            for test in tests:
-                at = _atoms(test)
-                if req_atom in at and len(at) > 1:
-                    # the required arm must imply property.required
-                    for env in tplq.assignments(at):
-                        val = _eval(test, env)
-                        # polarity: which arm is "no guard"? the arm taken when property.required is True and all other atoms False
-                        base = _eval(test, {a: (a == req_atom) for a in at})
-                        if val == base and not env[req_atom]:
-                            rep.fail("R10.2", key + f"::guard-skipped({expr_text(test)[:50]})",
-                                     f"the Unset guard is skipped under `{expr_text(test)}` although the property is not required "
-                                     f"(e.g. {env})", where=f"{PKG}/templates/{tn}:{test.lineno}", lhs=expr_text(test),
-                                     rhs="skipped only when property.required")
-                            break
+            # a guard is skipped only under property.required: whatever else the template asks, for a property that is not
+            # required some piece that tests for Unset is emitted - a truth table over the conditions those pieces sit under
+            # (which other decisions a condition is mixed with - `if` vs `elif` of the generated chain, the last member of a
+            # union - is not asked)
+            if has_guard:
+                gnames = list(dict.fromkeys([req_atom] + [a for _, _, ns_ in guard_frs for a in ns_]))
+                rep.require(len(gnames) <= 14, f"Unset tests of {key} that depend on at most 14 conditions")
+                decided = [(i_, fr) for i_, fr in enumerate(frs) if fr.kind in ("data", "expr") and
+                           set(_guard_atoms(fr) + (tev2.atoms(fr.expr, i_) if fr.kind == "expr" else [])) <= set(gnames)]
+                for env in tplq.assignments(gnames):
+                    if env[req_atom]:
+                        continue
+                    gen = "".join(fr.text if fr.kind == "data" else "".join(tev2.consts(fr.expr, env, i_))
+                                  for i_, fr in decided if _guard_holds(fr, env))
+                    if not (GUARD_RE.search(gen) or "isinstance(" in gen and "Unset" in gen):
+                        holds = sorted(a for a, v in env.items() if v)
+                        rep.fail("R10.2", key + f"::guard-skipped({' and '.join(holds)[:50]})",
+                                 f"no Unset test is emitted for a property that is not required when {holds or 'nothing else'} holds "
+                                 f"(valuation {env})", where=f"{PKG}/templates/{tn}:{m.lineno}", lhs=env,
+                                 rhs="skipped only when property.required")
+                        break
     rep.floor("unset_handling_macros", n_macros, 13)
 
     # ---- R10.3 -------------------------------------------------------------------------------------------------------
@@ -448,19 +458,42 @@ def run(rep: Report, ctx: Any) -> str:
     rep.require(ut, "union template")
     cons = ut.macros.get("construct")
     rep.require(cons, "union construct")
-    # (in the order of emission, macros the parser is assembled from included)
-    frs = list(_frags(cons.body, ut, jx))
-    none_at = [i for i, f in enumerate(frs) if f.kind == "data" and re.search(r"\bif data is None:\s*\n\s*return (data|None)\b", f.text)]
-    none_fr = [frs[i] for i in none_at]
-    none_atoms = [a for f in none_fr[:1] for a in _guard_atoms(f) if a.startswith("'None' in ") and "type_strings" in a]
-    ok = bool(none_fr) and len(none_atoms) == 1 and _implies(none_fr[0], none_atoms[0], True)
-    # ... and whenever None is among them, whatever else is asked on the way
-    ok = ok and all(_guard_holds(none_fr[0], e) for e in tplq.assignments(_guard_atoms(none_fr[0])) if e[none_atoms[0]])
-    first_loop = next((i for i, f in enumerate(frs) if f.loops), None)
-    ok = ok and first_loop is not None and none_at[0] < first_loop
+    # The generated parser, put together per valuation of the template conditions (macro calls and call blocks followed, loops
+    # over written-out tables unrolled, `set` variables and table entries read as the text they hold): the statement
+    # `if data is None: return data` is part of it exactly when "None" is among the JSON type strings - whatever else is asked -
+    # and stands before everything the loop over the members emits.
+    ufr = list(enumerate(_frags(cons.body, ut, jx, sets=True)))
+    utev = _TplEval([fr for _, fr in ufr])
+    unames: list[str] = []
+    for i_, fr in ufr:
+        for a in _guard_atoms(fr) + (utev.atoms(fr.expr, i_) if fr.kind == "expr" else []):
+            if a not in unames:
+                unames.append(a)
+    rep.require(len(unames) <= 14, "a union parser that depends on at most 14 conditions")
+    none_atoms = [a for a in unames if a.startswith("'None' in ") and "type_strings" in a]
+    none_re = re.compile(r"\bif data is None:\s*\n\s*return (data|None)\b")
+    ok = len(none_atoms) == 1
+    n_with = 0
+    bad_env: "dict[str, bool] | None" = None
+    for env in tplq.assignments(unames) if ok else ():
+        before = after = ""
+        for i_, fr in ufr:
+            if fr.kind == "set" or not _guard_holds(fr, env):
+                continue
+            txt = _gen_text(fr, i_, env, utev, lambda *_: None)
+            if fr.loops or after:
+                after += txt
+            else:
+                before += txt
+        found = none_re.search(before)
+        n_with += bool(found)
+        if bool(found) != env[none_atoms[0]] or none_re.search(after):
+            ok, bad_env = False, env
+            break
+    ok = ok and n_with > 0
     rep.check(ok, "R10.4", "union_property.py.jinja::construct::none-short-circuit",
               "the union parser does not return None (before trying members) exactly when None is among its JSON types",
-              where=f"{PKG}/templates/{ut.name}:{cons.lineno}", lhs=[f.guards for f in none_fr][:1], rhs="guarded by 'None' in type strings, before the member loop")
+              where=f"{PKG}/templates/{ut.name}:{cons.lineno}", lhs=bad_env or none_atoms, rhs="guarded by 'None' in type strings, before the member loop")
     sch = ix.cls("Schema")
     hn = sch.methods.get("handle_nullable")
     rep.require(hn, "Schema.handle_nullable")
